@@ -18,14 +18,18 @@ EXPLANATION = (
     "public PlanConverter.convert_plan: its two private steps (plan text + agent names -> action sequence; problem + sequence + agent "
     "names -> joint actions) are found by the provenance of the arguments they receive, analysed with every private helper inlined "
     "(also the well-definedness test in the `while` condition), and identified by def-use provenance, never by names of helpers or "
-    "locals. Decided: C15.guard -- the slot list of a step is the list handed to JointActionCall; every store into it that can follow "
+    "locals. Before the analysis the flattened copy is brought into a normal form: generator helpers are expanded, map / filter / "
+    "operator-module functions / attrgetter / methodcaller / lambdas / module-level dispatch tables are read as the expressions they compute, "
+    "`a and self._helper()` is split into statements, NamedTuple / dataclass records and dicts used with constant keys are replaced by one local "
+    "per field / key (record methods and properties inlined, loops over zip(record, record) unrolled). Decided: C15.guard -- the slot list of a step is the list handed to JointActionCall; every store into it that can follow "
     "another store of the same step is unreachable (finite valuation of the guards, propagated through helper results and boolean "
     "locals) in each of the scenarios: the slot tested for the candidate is occupied, the candidate is inapplicable, one of the six "
     "required set pairs (add/delete both ways, precondition/delete, numeric write/write, numeric read/write both ways) has a common "
     "element. The set tests are recognised in any spelling (len(a.intersection(b)) > 0, a & b, not a.isdisjoint(b), all(.. for .. in "
     "table of pairs), intermediate variables); the role of an operand is the provenance of its elements: which operator fields the "
     "extracting helper reads (discrete effects split by is_positive, numeric effect / precondition targets, discrete preconditions) "
-    "and whether the operator was built from the head of the remaining plan or from a member of the slot list. The applicability "
+    "and whether the operator was built from the head of the remaining plan or from a member of the slot list; a set that is the union of "
+    "several kinds stands for each of them. The applicability "
     "test is asked of the candidate's operator on the step's pre-state. C15.once -- every outer iteration appends exactly one "
     "JointActionCall built from the slot list to the returned list; every popped head is stored into the slot agent_names.index(<agent of "
     "a plan entry>); the slot list starts as nop for every agent in the given order. C15.thread -- the step pre-state is the initial "
@@ -70,6 +74,8 @@ class _Ctx:
         # guards is unknown, so a guard that seems to be missing cannot be told from one that hides in such a helper
         self.opaque = sorted({callee_name(c) for c in L.calls_in(self.kf.node) if U.is_private(callee_name(c))
                               and (lambda t: t is not None and t.qn not in self.ex.qns and t.qn != self.K.raw.qn)(U.unique_target(repo, self.kf, c))})
+        # record-valued locals (NamedTuple / dataclass) that could not be split into their fields: what they carry is unknown too
+        self.opaque += [f"<record {r}>" for r in getattr(self.kf, "unsplit_records", [])]
         # extraction step
         self.ef = U.flatten_full(repo, self.E.raw)
         self.pe = L.prov(repo, self.ef)
